@@ -81,6 +81,10 @@ class SchemaInfo(object):
         self.types = odict()
 
 
+def _class_sort_key(cls):
+    return (repr(cls), str(cls.get_namespace()), str(cls.get_type_name()))
+
+
 class XmlSchema(InterfaceDocumentBase):
     """The implementation of a subset of the Xml Schema 1.0 object definition
     document standard.
@@ -132,14 +136,19 @@ class XmlSchema(InterfaceDocumentBase):
         self.schema_dict = {}
 
         tags = set()
-        for cls in chain.from_iterable(toposort2(self.interface.deps)):
-            self.add(cls, tags)
+        # toposort2 orders the classes of a layer by their repr(), which is the
+        # same for e.g. all Array or customized primitive classes. break the
+        # tie by the (unique) qualified type name to keep the output stable.
+        for layer in toposort2(self.interface.deps):
+            for cls in sorted(layer, key=_class_sort_key):
+                self.add(cls, tags)
 
         for pref in self.namespaces:
             schema = self.get_schema_node(pref)
 
             # append import tags
-            for namespace in self.interface.imports[self.interface.nsmap[pref]]:
+            for namespace in sorted(
+                           self.interface.imports[self.interface.nsmap[pref]]):
                 import_ = etree.SubElement(schema, ns.XSD('import'))
 
                 import_.set("namespace", namespace)
